@@ -11,7 +11,7 @@ C05 ops.
     c05_lax blob                                   sigdecode_der_lax
     c05_sec x y compressed                         public_pair_to_sec
     c05_sign_solver keys nsigs existing lookup ht placeholder digests
-    c05_sign_tx coin mech tx unspents p2sh ht subset keys passes digests   (passes := idxs ":" valid "|" …; mech is for the harness)
+    c05_sign_tx coin mech tx unspents p2sh ht subset keys passes digests   (passes := idxs ":" valid [":" ht] "|" …, a per-pass hash type overrides ht; mech is for the harness)
     c05_keychain script
     c05_who_signed coin tx unspents                 public_pairs_signed of every input: inputs separated by "|", signers "x.y.sigtype" by ";" ("~" none)
 
@@ -161,7 +161,8 @@ def handle : Handler := fun op args =>
       | _ => none) digests
     let passes ← (passes.splitOn "|").mapM fun p =>
       match p.splitOn ":" with
-      | [idxs, valid] => do pure (← parseList? parseNat? idxs, valid.toList)
+      | [idxs, valid] => do pure (← parseList? parseNat? idxs, valid.toList, (none : Option Nat))
+      | [idxs, valid, h] => do pure (← parseList? parseNat? idxs, valid.toList, some (← parseNat? h))
       | _ => none
     let cls ← (Gen.Sign.coinClass.find? (·.1 = coin)).map (·.2)
     let c ← parseCoin? cls
@@ -175,7 +176,7 @@ def handle : Handler := fun op args =>
         | none => true
         | some (w, code) => modelSighash c tx us i w code ht != some z
     if let some (i, ht, _) := bad then some s!"err DigestMismatch {i}.{ht}" else
-    let step := fun (acc : Except Sign.Err Tx) (p : List Nat × List Char) =>
+    let step := fun (acc : Except Sign.Err Tx) (p : List Nat × List Char × Option Nat) =>
       match acc with
       | .error e => .error e
       | .ok tx =>
@@ -183,7 +184,7 @@ def handle : Handler := fun op args =>
         let a : SignArgs := {
           C := crypto, fork := Gen.Sign.forkidCoins.contains coin, lookup := fun h => assocGet h es,
           p2sh := p2shF, sighash := modelSighash c tx us,
-          valid := fun i => p.2[i]? == some '1', ht := ht, subset := subset }
+          valid := fun i => p.2.1[i]? == some '1', ht := (p.2.2 <|> ht), subset := subset }
         signTx a tx us
     some (showE showTx (passes.foldl step (.ok tx)))
   | "c05_fastcheck", [d, z, flip] => do
